@@ -40,6 +40,8 @@ CHECK_FLAGS = ['--bounds-check', '--pointer-check', '--pointer-overflow-check', 
 DEFAULT_OFF = ['--unsigned-overflow-check', '--conversion-check']
 
 MEM_KB = 12 * 1024 * 1024
+# SAT back end: cbmc's built-in CaDiCaL (several of the pointer-heavy jobs are 10x faster than with the default MiniSat2)
+DEFAULT_SAT = 'cadical'
 
 
 class Undecided(Exception):
@@ -216,7 +218,8 @@ def cbmc_job(unit, cfile, outdir, tag, defines, tier, fn=None):
     off = set(DEFAULT_OFF) - set(unit.get('flags_on', []))
     off |= set(unit.get('flags_off', []))
     flags = [f for f in CHECK_FLAGS if f not in off]
-    ccmd = ['cbmc', b, '--json-ui', '--trace', '--verbosity', '8'] + flags + unit.get('cbmc', [])
+    sat = unit.get('sat_solver', os.environ.get('VERIF_SAT', DEFAULT_SAT))
+    ccmd = ['cbmc', b, '--json-ui', '--trace', '--verbosity', '8'] + flags + unit.get('cbmc', []) + (['--sat-solver', sat] if sat != 'minisat2' else [])
     if tier == 'thorough' and unit.get('thorough_cbmc'):
         ccmd += unit['thorough_cbmc']
     if unit.get('unwind') is not None:
@@ -580,7 +583,7 @@ def write_evidence(pid, mod, tier, seed, results, errors, nviol, wall, known):
         fucs.append(dict(unit=u['name'], functions=u.get('enforce', []), replaced_by_contract=u.get('replace', []),
                          obligations=r['obligations'], discharged=r['discharged'],
                          contract_obligations=r['contract_obligations'],
-                         backend=u.get('backend', 'cbmc 6.11 SAT (minisat2 default)'),
+                         backend=u.get('backend', 'cbmc 6.11 SAT (%s)' % u.get('sat_solver', os.environ.get('VERIF_SAT', DEFAULT_SAT))),
                          solver_s=round(sum(j['solver_s'] for j in r['jobs']), 3), wall_s=round(sum(j['wall'] for j in r['jobs']), 2),
                          loop_contracts=r['nloops'], checks_switched_off=job['flags_off'],
                          unwind=u.get('unwind'), ignored_obligation_classes=u.get('ignore', []),
